@@ -371,6 +371,11 @@ func decideOnPath(cond ssa.Value, p *Path) (bool, bool) {
 		case "fmt.Errorf", "errors.New":
 			nilness = 2
 		}
+	case *ssa.UnOp:
+		// a package-level sentinel error (`var errClosed = errors.New(…)`, stored only by the initialiser)
+		if g, ok := y.X.(*ssa.Global); ok && y.Op == token.MUL && sentinelHook != nil && sentinelHook(g) {
+			nilness = 2
+		}
 	}
 	if nilness == 0 {
 		// the same value was tested against nil earlier on this path (`v, err := f(); if err != nil { … }` inside an
@@ -436,6 +441,9 @@ func testedNilness(p *Path, r ssa.Value) int {
 	}
 	return 0
 }
+
+// sentinelHook tells whether a global is a sentinel error of the analysed package (set per run, rules_store2.go).
+var sentinelHook func(*ssa.Global) bool
 
 func clonePath(p *Path) *Path {
 	q := &Path{End: p.End, Ret: p.Ret}
